@@ -11,6 +11,7 @@ import SharkVerif.Model.McSmo
 import SharkVerif.Model.McSolve
 import SharkVerif.Model.McSimplex
 import SharkVerif.Model.McLinear
+import Driver.C16L
 open SharkVerif.Mc SharkVerif.Gen
 
 def fbits (x : Float) : String := toString x.toBits.toNat
@@ -260,6 +261,7 @@ structure St where
   bq : Option (McBox Rat) := none
   xf : Option (McSx Float) := none
   xq : Option (McSx Rat) := none
+  ml : C16L.St := {}
   ds : DataSet := {}
   lin : Option LinPair := none
 
@@ -295,6 +297,9 @@ def parseInts (l : List String) : Option (List Int) := l.mapM String.toInt?
 
 def step (st : St) (line : String) : St × String :=
   let toks := (line.trimAscii.toString.splitOn " ").filter (· ≠ "")
+  match C16L.step st.ml toks with
+  | some (ml', o) => ({ st with ml := ml' }, o)
+  | none =>
   match toks with
   | [] => (st, "")
   | ["tables", name, c] =>
